@@ -30,6 +30,10 @@ def main():
     ap.add_argument("--skip-tests", action="store_true")
     a = ap.parse_args()
     assert clean_repo(), "/repo has uncommitted changes"
+    # the checks rewrite evidence/<id>.json on every run: keep the committed evidence (from the unchanged tree) aside
+    import shutil, tempfile
+    keep = tempfile.mkdtemp(prefix="evidence_keep_", dir=VERIF)
+    shutil.copytree(os.path.join(VERIF, "evidence"), os.path.join(keep, "evidence"))
     rows = []
     for d in sorted(glob.glob(os.path.join(a.root, "*"))):
         sid = os.path.basename(d)
@@ -66,6 +70,9 @@ def main():
             sh("git checkout -- . && git clean -fdq -e nothing 2>/dev/null; git status --porcelain", cwd=REPO)
         rows.append(row)
         print(json.dumps(row), flush=True)
+    shutil.rmtree(os.path.join(VERIF, "evidence"))
+    shutil.move(os.path.join(keep, "evidence"), os.path.join(VERIF, "evidence"))
+    shutil.rmtree(keep, ignore_errors=True)
     assert clean_repo(), "/repo not restored"
     caught = sum(1 for r in rows if any(isinstance(v, dict) and v.get("rc") == 1 for v in r.values()))
     print(f"SUMMARY seeds={len(rows)} caught={caught}")
